@@ -1527,6 +1527,52 @@ func c06R2ResolverMaps(c *Ctx) {
 		c.Check(R, FnName(fn)+"|tag-rebinds-reference", fn.Pos(), ok,
 			ifelse(ok, "every successful Tag stores index[reference] = desc", "Tag can succeed without binding the reference to the new descriptor: Resolve keeps returning an older descriptor (or nothing)"))
 	}
+	// the inverse map: an entry tags[digest] is dropped only when its set has become empty — dropping it earlier loses the
+	// other tags of that digest (TagSet/isTagged then call a tagged manifest untagged: Delete/GC remove live content)
+	isTags := func(v ssa.Value) bool {
+		u, ok := v.(*ssa.UnOp)
+		return ok && u.Op == token.MUL && c05IsFieldAddrOf(u.X, "~/internal/resolver.Memory", c05Cur.F("resolver.tags"))
+	}
+	for _, name := range []string{"Memory.Tag", "Memory.Untag"} {
+		fn := c.P.Fn("internal/resolver", name)
+		if fn == nil || len(fn.Blocks) == 0 {
+			continue
+		}
+		for _, e := range c05TreeEnvs(c05Root(fn), 2) {
+			g := e.Fn
+			for _, call := range CallsTo(g, "builtin:delete") {
+				a := call.Common().Args
+				if !isTags(a[0]) {
+					if w, _ := e.up(a[0]); !isTags(w) {
+						continue
+					}
+				}
+				// the sets looked up under the same key in this function
+				var zero []Edge
+				AllInstrs(g, func(in ssa.Instruction) {
+					lk, isL := in.(*ssa.Lookup)
+					if !isL || !c06SameKey(lk.Index, a[1]) {
+						return
+					}
+					if w, _ := e.up(lk.X); !isTags(lk.X) && !isTags(w) {
+						return
+					}
+					var setv ssa.Value = lk
+					if lk.CommaOk {
+						for _, r := range *lk.Referrers() {
+							if ex, isE := r.(*ssa.Extract); isE && ex.Index == 0 {
+								setv = ex
+							}
+						}
+					}
+					zero = append(zero, lenZeroEdges(g, setv)...)
+				})
+				ok := len(zero) > 0 && MustPass(call.(ssa.Instruction), newCut().Edges(zero...))
+				c.Check(R, FnName(fn)+"|tag-set-entry-dropped-only-when-empty", call.Pos(), ok,
+					ifelse(ok, "delete(tags, digest) lies behind len(tags[digest]) == 0", "the inverse entry tags[digest] can be dropped while other references still tag that digest: TagSet reports a tagged manifest as untagged (Delete / GC remove live content)"))
+			}
+		}
+	}
 	if fn := c06Fn(c, R, "internal/resolver", "Memory.Untag"); fn != nil && len(fn.Params) >= 2 {
 		ref := fn.Params[len(fn.Params)-1]
 		var present []Edge
@@ -1779,6 +1825,9 @@ func c06IsResolvedDigest(v ssa.Value, resolves []ssa.CallInstruction) bool {
 }
 
 var c06Mutants = []Mutant{
+	// mutation-sweep survivors (test-green)
+	{Name: "resolver-tag-drops-nonempty-old-tagset", File: "internal/resolver/memory.go", Old: "\t\t\tif len(oldTagSet) == 0 {", New: "\t\t\tif len(oldTagSet) != 0 {", Expect: "C06.R2.refuse-before-mutate|(*~/internal/resolver.Memory).Tag|tag-set-entry-dropped-only-when-empty"},
+	{Name: "resolver-untag-drops-nonempty-tagset", File: "internal/resolver/memory.go", Old: "\tif len(tagSet) == 0 {", New: "\tif len(tagSet) != 0 {", Expect: "C06.R2.refuse-before-mutate|(*~/internal/resolver.Memory).Untag|tag-set-entry-dropped-only-when-empty"},
 	// R4 (keeps the repository's tests green)
 	{Name: "memory-tag-truncates-long-reference", File: "content/memory/memory.go", Old: "\treturn s.resolver.Tag(ctx, desc, reference)", New: "\tif len(reference) > 128 {\n\t\treference = reference[:128]\n\t}\n\treturn s.resolver.Tag(ctx, desc, reference)", Expect: "C06.R4.tag-map-agreement|(*~/content/memory.Store).Tag|binds-callers-reference-to-callers-descriptor"},
 	// R3 (both keep the repository's tests green)
@@ -2286,4 +2335,29 @@ func c06SliceElems(v ssa.Value, depth int) ([]ssa.Value, bool) {
 		}
 	}
 	return out, true
+}
+
+// c06SameKey: two key expressions denote the same value: identical, or the same field of the same struct value /
+// of the same addressed struct (x.Digest evaluated twice).
+func c06SameKey(a, b ssa.Value) bool {
+	a, b = strip(a), strip(b)
+	if a == b || SameValue(a, b) {
+		return true
+	}
+	if fa, ok := a.(*ssa.Field); ok {
+		if fb, ok := b.(*ssa.Field); ok {
+			return fa.Field == fb.Field && c06SameKey(fa.X, fb.X)
+		}
+		return false
+	}
+	if la, ok := a.(*ssa.UnOp); ok && la.Op == token.MUL {
+		if lb, ok := b.(*ssa.UnOp); ok && lb.Op == token.MUL {
+			xa, oka := la.X.(*ssa.FieldAddr)
+			xb, okb := lb.X.(*ssa.FieldAddr)
+			if oka && okb {
+				return xa.Field == xb.Field && (xa.X == xb.X || SameValue(xa.X, xb.X))
+			}
+		}
+	}
+	return false
 }
